@@ -25,8 +25,11 @@ SPEC = {
     "assumptions": [
         "quantifier: any number of threads, any list of read-modify-write statements per thread, every schedule of the four steps "
         "(blocked lock acquisitions consume a schedule entry without moving the thread)",
-        "only ndb_execute_write / prepared write statements (execute_write_count); explicit transactions (ndb_begin_write + "
-        "ndb_txn_query) take a fresh snapshot per statement while holding the lock and are not part of C09",
+        "ndb_execute_write / prepared write statements (execute_write_count) and explicit transactions holding ONE statement "
+        "(ndb_begin_write, ndb_txn_query, ndb_txn_commit): both run the four steps in the order lock, snapshot, commit, unlock (calibrated "
+        "on the real code and compared with the model), so the same theorem covers any mix of them; explicit transactions with several "
+        "statements hold the lock from begin to commit (serializable as a unit) but each statement reads the committed state, not the "
+        "transaction's own earlier writes - that is C24's subject and is not in this model",
     ],
     "manifest": {
         "category": "proof",
@@ -35,7 +38,7 @@ SPEC = {
                 "at a time in commit order, every thread's statements are committed exactly once in its order, and n increments add n. "
                 "The pinned tree's order (snapshot before lock) is refuted by a two-increment schedule (vm_compute), which also "
                 "reproduced on the real code before the fix and stays in the corpus. Correspondence: explicit schedules driven through "
-                "cfg-guarded schedule points of the real C API (corpus, all 70 interleavings of 2x1 increments, generated), trace / "
+                "cfg-guarded schedule points of the real C API (corpus, all 70 interleavings of 2x1 increments, generated; a third of the cases with two and a third with all threads using explicit single-statement transactions), trace / "
                 "completion / value compared with the model inside Coq; search: 8 threads x 200 free-running increments.",
         "design_ref": "DESIGN.md §5 C09",
         "level_note": "Trusted: Coq kernel; the hand-written four-step model (tied by sampled correspondence, not by proof); "
